@@ -132,6 +132,8 @@ def prepare_aspirate_dispense_parameters(
 
     if not isinstance(rack_id, str) or len(rack_id) > 32 or ";" in rack_id:
         raise ValueError(f"Invalid rack_id: {rack_id}")
+    if not isinstance(tube_id, str) or ";" in tube_id:
+        raise ValueError(f"Invalid tube_id: {tube_id}")
     if not isinstance(rack_type, str) or len(rack_type) > 32 or ";" in rack_type:
         raise ValueError(f"Invalid rack_type: {rack_type}")
     if not isinstance(forced_rack_type, str) or len(forced_rack_type) > 32 or ";" in forced_rack_type:
